@@ -41,9 +41,11 @@ def run(prog: Program, rep: Report):
     r4_sorted(prog, rep, mp)
     r5_shutdown(prog, rep, fm, mp)
     rep.rule("C05.R6", "chunking idiom instance of FunctorMap.__call__ (C01.R8)", floor=1)
-    gens = [g for g in prog.method(fm, "__call__").nested.values() if g.is_generator]
+    from .poolfam import chunk_generators
+    from .c01 import _data_param
+    gens = chunk_generators(prog, fm, prog.method(fm, "__call__"))
     if gens:
-        chunking_idiom(prog, rep, "C05.R6", gens[0], "chunking", data_expr=gens[0].params[0] if gens[0].params else None)
+        chunking_idiom(prog, rep, "C05.R6", gens[0], "chunking", data_expr=_data_param(gens[0]))
     r7_input(prog, rep, fm, mp)
     from .ownership import rule_no_class_state
     rule_no_class_state(prog, rep, "C05.R8", [fm, fw, fr])
@@ -81,6 +83,14 @@ def r1_tags(prog, rep: Report, fw: Cls, fr: Cls):
             brk = [n for n in ast.walk(lp) if isinstance(n, ast.Break)]
             ok = len(brk) == 1 and isinstance(getattr(brk[0], "_parent", None), ast.If) \
                 and "is None" in src(brk[0]._parent.test)
+            if not ok and not brk and isinstance(lp.test, ast.Compare) and len(lp.test.ops) == 1 and isinstance(lp.test.ops[0], ast.IsNot) \
+                    and isinstance(lp.test.comparators[0], ast.Constant) and lp.test.comparators[0].value is None \
+                    and isinstance(lp.test.left, ast.Name):
+                # priming-read form:  item = get();  while item is not None: ...; item = get()
+                from ..flow import Flow
+                defs = Flow(run_.node).defs_of(lp.test.left)
+                ok = bool(defs) and all(isinstance(d_.value, ast.Call) and work_get(d_.value) for d_ in defs) \
+                    and isinstance(lp.body[-1], ast.Assign) and isinstance(lp.body[-1].value, ast.Call) and work_get(lp.body[-1].value)
         rep.check("C05.R1", run_, "loop", ok, "the worker loop ends only on the None sentinel",
                   "the worker loop does not end exactly on the None sentinel",
                   scenario="a worker stops early (work is never processed, the call hangs) or never stops (join hangs)")
@@ -161,6 +171,9 @@ def r2_accounting(prog, rep: Report, fm: Cls, mp: Func):
         for n_ in ast.walk(r_):
             if isinstance(n_, ast.Call) and src(n_.func) == "sorted" and n_.args and isinstance(n_.args[0], ast.Name):
                 res_names.add(n_.args[0].id)
+    for c_ in calls_in(mp.node):
+        if isinstance(c_.func, ast.Attribute) and c_.func.attr == "sort" and isinstance(c_.func.value, ast.Name):
+            res_names.add(c_.func.value.id)
     apps = [c for c in calls_in(mp.node) if isinstance(c.func, ast.Attribute) and c.func.attr == "append"
             and isinstance(c.func.value, ast.Name) and (c.func.value.id in res_names or not res_names)]
     ok = len(apps) >= 2
@@ -182,6 +195,11 @@ def r2_accounting(prog, rep: Report, fm: Cls, mp: Func):
             i_name, d_name = (src(x) for x in n.target.elts)
             ps = [c for c in puts if any(c is x for x in ast.walk(n))]
             incs = [st for st in n.body if isinstance(st, ast.AugAssign) and isinstance(st.op, ast.Add) and const_value(st.value) == 1]
+            # the count may also be taken from the enumerate index of this very loop: cnt = i + 1 (cnt initialised to 0 before it)
+            incs += [st for st in n.body if isinstance(st, ast.Assign) and isinstance(st.targets[0], ast.Name)
+                     and src(st.value) in (f"{i_name} + 1", f"1 + {i_name}") and len(n.iter.args) == 1
+                     and any(isinstance(z, ast.Assign) and isinstance(z.targets[0], ast.Name) and z.targets[0].id == st.targets[0].id
+                             and const_value(z.value) == 0 and z.lineno < n.lineno for z in walk_own(mp.node))]
             send_ok = len(ps) == 1 and src(ps[0].args[0]) == f"({i_name}, [{d_name}])" and len(incs) == 1
     rep.check("C05.R2", mp, "send", send_ok, "put((i, [d])) and one counter increment per input element",
               "mul_p_map does not put (i, [d]) once and count once per input element",
@@ -229,6 +247,11 @@ def _owed_test(test, f: Func) -> bool:
                 for st in n.body:
                     if isinstance(st, ast.AugAssign) and isinstance(st.target, ast.Name):
                         sent.add(st.target.id)
+                    # the count taken from the enumerate index of the send loop:  sent = i + 1
+                    if isinstance(st, ast.Assign) and isinstance(st.targets[0], ast.Name) and isinstance(n.target, ast.Tuple) \
+                            and isinstance(n.iter, ast.Call) and src(n.iter.func) == "enumerate" \
+                            and src(st.value) in (f"{src(n.target.elts[0])} + 1", f"1 + {src(n.target.elts[0])}"):
+                        sent.add(st.targets[0].id)
     l, r, op = test.left, test.comparators[0], test.ops[0]
     if isinstance(r, ast.Name) and r.id in sent and isinstance(op, (ast.Lt, ast.NotEq)):
         return True
@@ -254,6 +277,24 @@ def r4_sorted(prog, rep: Report, mp: Func):
                                          and const_value(key.body.slice) == 0)
                 return key_ok and src(v.elt) == src(g.target.elts[1]) and (rev is None or const_value(rev) is False)
         return False
+    def _index_key(key) -> bool:
+        return key is None or (isinstance(key, ast.Lambda) and isinstance(key.body, ast.Subscript) and const_value(key.body.slice) == 0) \
+            or (isinstance(key, ast.Call) and src(key.func).split(".")[-1] == "itemgetter" and len(key.args) == 1 and const_value(key.args[0]) == 0)
+    if len(rets) == 1 and isinstance(rets[0].value, ast.ListComp) and len(rets[0].value.generators) == 1 \
+            and isinstance(rets[0].value.generators[0].iter, ast.Name) and rets[0] in mp.node.body:
+        # pairs.sort(key=<index>) directly before  return [value for index, value in pairs]
+        v0 = rets[0].value
+        g0 = v0.generators[0]
+        k0 = mp.node.body.index(rets[0])
+        prev = mp.node.body[k0 - 1] if k0 > 0 else None
+        if isinstance(prev, ast.Expr) and isinstance(prev.value, ast.Call) and isinstance(prev.value.func, ast.Attribute) \
+                and prev.value.func.attr == "sort" and src(prev.value.func.value) == g0.iter.id and not prev.value.args:
+            key0 = next((k.value for k in prev.value.keywords if k.arg == "key"), None)
+            rev0 = next((k.value for k in prev.value.keywords if k.arg == "reverse"), None)
+            if _index_key(key0) and (rev0 is None or const_value(rev0) is False) and not g0.ifs and isinstance(g0.target, ast.Tuple) \
+                    and len(g0.target.elts) == 2 and src(v0.elt) == src(g0.target.elts[1]):
+                rep.ok("C05.R4", mp, "sorted-by-index", "pairs sorted in place by their index, then the values returned in that order")
+                return
     if len(rets) > 1:
         others = [r for r in rets if r.value is None or not _sorted_values(r.value)]
         ok = not others
@@ -353,15 +394,18 @@ def r5_shutdown(prog, rep: Report, fm: Cls, mp: Func):
 def r7_input(prog, rep: Report, fm: Cls, mp: Func):
     rep.rule("C05.R7", "input consumed once, by iteration only (C01.R10) in FunctorMap.__call__ and mul_p_map", floor=2)
     call = prog.method(fm, "__call__")
-    gens = {g.name for g in call.nested.values()}
+    from .poolfam import chunk_generators
+    from .c01 import _data_param
+    chunkers = chunk_generators(prog, fm, call)
+    gens = {g.name for g in call.nested.values()} | {g.name for g in chunkers}
     probs = param_used_only_for_iteration(call, call.params[1], gens)
     rep.fn(call, mp)
     rep.check("C05.R7", call, "input", not probs, f"`{call.params[1]}` only handed to the chunking generator", "; ".join(probs),
               scenario="a generator input is measured with len() or traversed twice")
-    for g in call.nested.values():
-        if g.is_generator and g.params:
-            ps = param_used_only_for_iteration(g, g.params[0], set())
-            rep.check("C05.R7", g, "input", not ps, f"`{g.params[0]}` iterated once", "; ".join(ps),
+    for g in chunkers:
+        if g.is_generator and _data_param(g):
+            ps = param_used_only_for_iteration(g, _data_param(g), set())
+            rep.check("C05.R7", g, "input", not ps, f"`{_data_param(g)}` iterated once", "; ".join(ps),
                       scenario="a generator input is measured with len() or traversed twice")
     probs = param_used_only_for_iteration(mp, mp.params[1], set())
     rep.check("C05.R7", mp, "input", not probs, f"`{mp.params[1]}` iterated once", "; ".join(probs),
